@@ -106,7 +106,12 @@ def prop_gridworld(case, ctx):
     tile = "\n".join(rows) if case["as_string"] else list(rows)
     kw = {}
     if case["feature_rewards"] is not None:
-        kw["feature_rewards"] = case["feature_rewards"]
+        kw["feature_rewards"] = dict(case["feature_rewards"])
+        if (len(rows) + len(rows[0])) % 2 == 0:
+            # the same dict object was used for another (featureless) world before: what a world pays is decided by the
+            # dict's contents as the caller wrote them, not by what an earlier construction left of it
+            ctx.call("C20.gridworld.construct_raises", GridWorld, ["s.", ".."], feature_rewards=kw["feature_rewards"])
+            ctx.event("feature_rewards_dict_shared_with_an_earlier_world")
     # the role arguments are collections of one-character features: a tuple, a list, a set or simply a string of them
     rr = case.get("role_rep", "tuple")
     rep = {"tuple": tuple, "list": list, "set": set, "frozenset": frozenset, "str": lambda xs: "".join(xs)}[rr]
